@@ -597,6 +597,10 @@ func c02Scenarios(ctx *vr.Ctx) []*c02Scn {
 		// D2d: ONE completion, two blocked producers, the first one cancellable: the freed slot must go to whoever still wants it
 		l = append(l, &c02Scn{Name: "D2d-" + kind, Kind: kind, Cap: 1, Block: true, Prefill: []c02Offer{one(1)}, PreRead: 1, Completer: true,
 			Producers: [][]c02Offer{{{ID: 2, Size: 1, Ctx: 1}}, {one(3)}}, Cancel: []int{1}, FullOK: true, Shutdown: "none"})
+		// D8: nothing ever frees space (one accepted request, nobody reads) - the blocked producer's only way out is its
+		// context ("or returns with its context's error when the context ends first")
+		l = append(l, &c02Scn{Name: "D8-" + kind, Kind: kind, Cap: 1, Block: true, Prefill: []c02Offer{one(1)},
+			Producers: [][]c02Offer{{{ID: 2, Size: 1, Ctx: 1}}}, Cancel: []int{1}, Shutdown: "none"})
 		// D4 sizes: zero, cap, cap+1 with an items-like sizer
 		l = append(l, &c02Scn{Name: "D4-" + kind, Kind: kind, Cap: 3, Consumers: 1, ConsumerPoint: true,
 			Producers: [][]c02Offer{{{ID: 1, Size: 0}, {ID: 2, Size: 3}}, {{ID: 3, Size: 4}, {ID: 4, Size: 2}}}, Observers: 1, Shutdown: "end"})
